@@ -45,13 +45,59 @@ class Log(object):
         self.f.flush()
 
 
+class _FdReader(object):
+    """Characters from a file descriptor with an own buffer, so that
+    select() tells the truth about pending input."""
+
+    def __init__(self, stream):
+        try:
+            self.fd = stream.fileno()
+        except Exception:
+            self.fd = None
+            self.stream = stream
+        self.buf = ''
+        self.pos = 0
+        import codecs
+        self.dec = codecs.getincrementaldecoder('utf-8')('replace')
+
+    def getc(self, timeout):
+        if self.fd is None:
+            return self.stream.read(1)
+        while self.pos >= len(self.buf):
+            if timeout is not None:
+                import select
+                ready, _, _ = select.select([self.fd], [], [], timeout)
+                if not ready:
+                    return None
+            data = os.read(self.fd, 65536)
+            if not data:
+                return ''
+            self.buf = self.dec.decode(data)
+            self.pos = 0
+        c = self.buf[self.pos]
+        self.pos += 1
+        return c
+
+
 def read_commands(stream):
     """Yield complete top-level S-expressions (as text) from a char stream."""
     buf = []
     depth = 0
     in_str = in_q = in_comment = False
+    reader = _FdReader(stream)
     while True:
-        c = stream.read(1)
+        c = reader.getc(3.0 if ((depth > 0 or in_str or in_q or in_comment)
+                                and buf) else None)
+        if c is None:
+            # in the middle of a command and the sender stays silent: it is
+            # waiting for a reply to text that is not a complete command
+            # (e.g. an unquoted ';' swallowed the closing parenthesis)
+            yield ''.join(buf) + ' <incomplete command: the sender went ' \
+                'silent>'
+            buf = []
+            depth = 0
+            in_str = in_q = in_comment = False
+            continue
         if c == '':
             return
         if in_comment:
